@@ -24,7 +24,11 @@ func Txt(m proto.Message) string {
 	if !m.ProtoReflect().IsValid() {
 		return "<typed nil>"
 	}
-	return "{" + prototext.MarshalOptions{Multiline: false}.Format(m) + "}"
+	s := prototext.MarshalOptions{Multiline: false}.Format(m)
+	if len(s) > 400 {
+		s = s[:400] + "...(+" + fmt.Sprint(len(s)-400) + " chars)"
+	}
+	return "{" + s + "}"
 }
 
 // OpKind names an API call.
